@@ -1,9 +1,25 @@
 (* C06: FmtStr indexing, slicing, +, *, join and len agree with the same
    operations on the per-character cell list.  All statements are for arbitrary
-   FmtStrs (any number of runs, empty runs, no runs) and arbitrary bounds. *)
+   FmtStrs (any number of runs, empty runs, no runs) and arbitrary bounds.
+
+   INTERFACE for importers (C04, C09, C15, C16) -- characterising lemmas:
+     len_cells / len_text / len_nonneg      len f = number of cells = number of characters
+     getitem_slice_cells / _text            f[a:b]   = pyslice on cells / text, never raises
+     slice_of, getitem_slice_ok,            the value of f[a:b] as a total function and its
+       slice_of_cells / _text / _len          cells / text / len
+     getitem_int_error / _ok / _cells       f[i]: IndexError iff i < -len or i >= len; else one cell
+     add_cells / radd_cells / *_text        f + x, x + f   (x : operand = str or FmtStr)
+     mul_cells / mul_text                   f * n
+     join_cells / join_text                 sep.join(items)
+     cells_app, text_app, text_cells,       bookkeeping: cells/text of ++, text = map fst cells,
+       cells_to_fs, op_len_cells ...          cells (to_fs o) = op_cells o
+     pyslice_nonneg/_head/_tail/_between/   Python slices with int bounds >= 0 as firstn/skipn,
+       _all/_split/_split3/_length/_map       splitting a list at one or two positions
+     zslice, zslice_app                     window of a list and its behaviour on ++ (the
+                                            induction step of every run-walking loop)       *)
 From Curtsies Require Import Model.Base Spec.ListOps Model.Slice.
 From Coq Require Import Lia ZifyBool ZifyNat ZifyN.
-Close Scope N_scope.
+Local Close Scope N_scope.
 Local Open Scope Z_scope.
 
 (* ====================================================================== *)
@@ -433,3 +449,74 @@ Proof.
   rewrite !text_cells, join_cells, join_lists_map, map_map. f_equal.
   apply map_ext. intros o. now rewrite op_text_cells.
 Qed.
+
+(* ====================================================================== *)
+(* 6. interface for the later properties (C04, C15, C16)                     *)
+(* f[a:b] never raises; [slice_of] is its value *)
+Definition slice_of (f : fmtstr) (a b : option Z) : fmtstr :=
+  match getitem_slice f a b with Ok r => r | Raise _ => [] end.
+
+Lemma getitem_slice_ok f a b : getitem_slice f a b = Ok (slice_of f a b).
+Proof.
+  unfold slice_of. destruct (getitem_slice_cells f a b) as [r [H _]]. now rewrite H.
+Qed.
+
+Lemma slice_of_cells f a b : cells (slice_of f a b) = pyslice (cells f) a b.
+Proof.
+  destruct (getitem_slice_cells f a b) as [r [H1 H2]].
+  rewrite getitem_slice_ok in H1. injection H1 as <-. exact H2.
+Qed.
+
+Lemma slice_of_text f a b : text (slice_of f a b) = pyslice (text f) a b.
+Proof. now rewrite !text_cells, slice_of_cells, pyslice_map. Qed.
+
+Lemma slice_of_len f a b : len (slice_of f a b) = Z.of_nat (length (pyslice (cells f) a b)).
+Proof. now rewrite len_cells, slice_of_cells. Qed.
+
+(* Python slices with int bounds >= 0 in terms of firstn / skipn *)
+Section PysliceFacts.
+Context {A : Type}.
+
+Lemma pyslice_all (l : list A) : pyslice l None None = l.
+Proof.
+  unfold pyslice, slice_bound. cbn [Z.to_nat skipn]. apply firstn_all2. lia.
+Qed.
+
+Lemma pyslice_between (l : list A) a b :
+  0 <= a -> 0 <= b ->
+  pyslice l (Some a) (Some b) = firstn (Z.to_nat (b - a)) (skipn (Z.to_nat a) l).
+Proof.
+  intros Ha Hb. rewrite pyslice_nonneg by assumption. unfold zslice.
+  now replace (Z.max 0 a) with a by lia.
+Qed.
+
+Lemma pyslice_split (l : list A) k :
+  0 <= k -> pyslice l None (Some k) ++ pyslice l (Some k) None = l.
+Proof. intros Hk. rewrite pyslice_head, pyslice_tail by assumption. apply firstn_skipn. Qed.
+
+Lemma skipn_add (l : list A) : forall m n, skipn m (skipn n l) = skipn (n + m) l.
+Proof.
+  intros m n. revert l. induction n as [|n IH]; intros l; [reflexivity|].
+  destruct l as [|x l]; [now rewrite !skipn_nil|]. cbn [skipn Nat.add]. apply IH.
+Qed.
+
+Lemma pyslice_split3 (l : list A) a b :
+  0 <= a <= b ->
+  pyslice l None (Some a) ++ pyslice l (Some a) (Some b) ++ pyslice l (Some b) None = l.
+Proof.
+  intros H. rewrite pyslice_head, pyslice_tail, pyslice_between by lia.
+  rewrite <- (firstn_skipn (Z.to_nat a) l) at 4. f_equal.
+  rewrite <- (firstn_skipn (Z.to_nat (b - a)) (skipn (Z.to_nat a) l)) at 2. f_equal.
+  rewrite skipn_add. f_equal. lia.
+Qed.
+
+Lemma pyslice_length (l : list A) a b :
+  0 <= a -> 0 <= b ->
+  Z.of_nat (length (pyslice l (Some a) (Some b))) =
+  Z.max 0 (Z.min b (Z.of_nat (length l)) - Z.min a (Z.of_nat (length l))).
+Proof.
+  intros Ha Hb. rewrite pyslice_between by assumption.
+  rewrite firstn_length, skipn_length. lia.
+Qed.
+
+End PysliceFacts.
